@@ -11,7 +11,8 @@
 //
 //	m.L m.U | rw.L rw.U rw.RL rw.RU | wg.A:<d> wg.D wg.W | o.D:ok o.D:panic o.D:nest
 //	mp.Ld:<k> mp.St:<k>:<v> mp.LS:<k>:<v> mp.Del:<k> mp.Rg:<n>  (n<0: whole range, else f returns false at call n)
-//	p.Put:<x> (0 = nil) p.Get:<n> (0 = New is nil, else New returns -n)
+//	p.Put:<x> p.Get:<n> (0 = New is nil, else New returns -n)
+//	keys and values are codes: 0 = nil interface, 1 = (*int)(nil), 2 = int(0), 3 = "", other n = int n
 //
 // Answer line: outcomes joined by ';' : ok | ok:<value> | panic | block | fatal  (block/fatal end a sync history)
 package main
@@ -201,11 +202,56 @@ func renderPairs(ps [][2]int) string {
 	return strings.Join(sb, ",")
 }
 
-func val(x any, ok bool) string {
-	if x == nil {
-		return fmt.Sprintf("nil,%v", ok)
+// Value / key codes of the history language: 0 = nil interface, 1 = typed nil pointer (*int)(nil), 2 = int zero value,
+// 3 = empty string (zero value), any other n = int n.
+var nilPtr *int
+
+func decode(c int) any {
+	switch c {
+	case 0:
+		return nil
+	case 1:
+		return nilPtr
+	case 2:
+		return int(0)
+	case 3:
+		return ""
 	}
-	return fmt.Sprintf("%d,%v", x.(int), ok)
+	return c
+}
+
+func codeInt(x any) int {
+	switch v := x.(type) {
+	case nil:
+		return 0
+	case *int:
+		if v == nil {
+			return 1
+		}
+		return -999
+	case string:
+		if v == "" {
+			return 3
+		}
+		return -998
+	case int:
+		if v == 0 {
+			return 2
+		}
+		return v
+	}
+	return -997
+}
+
+func codeOf(x any) string {
+	if x == nil {
+		return "nil"
+	}
+	return strconv.Itoa(codeInt(x))
+}
+
+func val(x any, ok bool) string {
+	return fmt.Sprintf("%s,%v", codeOf(x), ok)
 }
 
 // the six objects, behind one interface so that nosync and sync run the same interpreter
@@ -281,20 +327,20 @@ func exec1(o *objs, op string) string {
 		}
 		return fmt.Sprintf("ok:%d", ran)
 	case "mp.Ld":
-		return "ok:" + val(o.mpLd(atoi(f[1])))
+		return "ok:" + val(o.mpLd(decode(atoi(f[1]))))
 	case "mp.St":
-		o.mpSt(atoi(f[1]), atoi(f[2]))
+		o.mpSt(decode(atoi(f[1])), decode(atoi(f[2])))
 	case "mp.LS":
-		return "ok:" + val(o.mpLS(atoi(f[1]), atoi(f[2])))
+		return "ok:" + val(o.mpLS(decode(atoi(f[1])), decode(atoi(f[2]))))
 	case "mp.Del":
-		o.mpDel(atoi(f[1]))
+		o.mpDel(decode(atoi(f[1])))
 	case "mp.Rg":
 		n := atoi(f[1])
 		var ps [][2]int
 		calls := 0
 		o.mpRg(func(k, v any) bool {
 			calls++
-			ps = append(ps, [2]int{k.(int), v.(int)})
+			ps = append(ps, [2]int{codeInt(k), codeInt(v)})
 			return n < 0 || calls < n
 		})
 		if n < 0 {
@@ -302,21 +348,14 @@ func exec1(o *objs, op string) string {
 		}
 		return fmt.Sprintf("ok:calls=%d", calls)
 	case "p.Put":
-		if x := atoi(f[1]); x == 0 {
-			o.pPut(nil)
-		} else {
-			o.pPut(x)
-		}
+		o.pPut(decode(atoi(f[1])))
 	case "p.Get":
 		var nf func() any
 		if n := atoi(f[1]); n != 0 {
 			nf = func() any { return -n }
 		}
 		x := o.pGet(nf)
-		if x == nil {
-			return "ok:nil"
-		}
-		return fmt.Sprintf("ok:%d", x.(int))
+		return "ok:" + codeOf(x)
 	default:
 		panic("bad op " + op)
 	}
